@@ -45,7 +45,7 @@ intermediate); quadrature 1e-8 * scale + error estimate; unit ratios 1e-9 relati
 Stable signatures on the pinned tree:
  * "sho:xp-order-swapped"              DESIGN §7 D5 ("x p" = p.x, "p x" = x.p, "x dx", "dx x" likewise)
  * "sho:xp:origin-x0-ignored"          new: the same four symbols use y = x - x0 instead of x when x0 != 0
- * "mevac:a a^dagger:not-product-of-factors"   new: BasisMultiElectronVac "a a^\\dagger" on (i, j) is |j><i|,
+ * "mevac:a_a^dagger:not-product-of-factors"   new: BasisMultiElectronVac "a a^\\dagger" on (i, j) is |j><i|,
                                        the product a_i . a^dagger_j of its own one-symbol matrices is
                                        delta_ij |vac><vac|
 """
@@ -60,7 +60,7 @@ CHECK_MEVAC_AA_DAGGER_PRODUCT = True
 
 SIG_D5 = "sho:xp-order-swapped"
 SIG_X0 = "sho:xp:origin-x0-ignored"
-SIG_MEVAC = "mevac:a a^dagger:not-product-of-factors"
+SIG_MEVAC = "mevac:a_a^dagger:not-product-of-factors"
 
 DAG = r"^\dagger"
 BD = "b" + DAG
@@ -75,6 +75,7 @@ class Ctx:
         self.flagged = set()
 
     def violate(self, sig, obj):
+        sig = sig.replace(" ", "_")
         if sig in self.flagged:
             return
         self.flagged.add(sig)
